@@ -137,7 +137,7 @@ def fileWorld (cfg : Cfg) (wd : Path) (src : Str) : World FS where
       else
         let fs1 := if fs.isFile p then fs else fs.write p ByteArray.empty     -- `try_resolve(.., create = true)`
         let new := encodeUtf8 contents
-        if fs1.file? p == some new then some fs1 else some (fs1.write p new)
+        if fs1.file? p = some new then some fs1 else some (fs1.write p new)
   removeTemp fs target :=
     match fs.resolve cfg wd target with
     | none => some fs
@@ -174,43 +174,45 @@ inductive Outcome where
   | ok | hasDeps (deps : List Str) | err
 deriving Repr, DecidableEq
 
+/-- `CtxOut::new`: what opening the output does, `none` = error -/
+def sinkStart (mode : Mode) (fs : FS) (o : Path) : Option FS :=
+  match mode with
+  | .build => if fs.isDir o then none else some (fs.write o ByteArray.empty)
+  | .inMemory => some fs
+  | .clean => if fs.isFile o then some (fs.remove o) else if fs.isDir o then none else some fs
+  | .verify => if fs.pathExists o then some fs else none
+
+/-- `IOCtx::done` after all output `new` has been produced -/
+def sinkEnd (mode : Mode) (fs2 : FS) (o : Path) (new : ByteArray) : Outcome × FS :=
+  match mode with
+  | .build => (.ok, fs2.write o new)
+  | .inMemory =>
+    if fs2.isDir o then (.err, fs2)
+    else if fs2.file? o = some new then (.ok, fs2) else (.ok, fs2.write o new)
+  | .clean => (.ok, fs2)
+  | .verify => if fs2.file? o = some new then (.ok, fs2) else (.err, fs2)
+
+/-- one pass over a readable source with output path `o` -/
+def runPassAt (cfg : Cfg) (fs : FS) (src : Path) (first : Bool) (content : ByteArray) (o : Path) : Outcome × FS :=
+  match sinkStart cfg.mode fs o with
+  | none => (.err, fs)
+  | some fs1 =>
+    match ppPass (fileWorld cfg src.dropLast (joinPath src)) cfg.mode (sniffLE content.toList) first cfg.trailing fs1
+        (decodeLines (byteLines content.toList)).1 (decodeLines (byteLines content.toList)).2 with
+    | .err => (.err, fs1)
+    | .hasDeps deps fs2 => (.hasDeps deps, fs2)
+    | .ok out fs2 => sinkEnd cfg.mode fs2 o (encodeUtf8 out)
+
+/-- the output path of a source, `none` if the name is not a txtpp name -/
+def outputPath (src : Path) : Option Path :=
+  match src.getLast? with
+  | none => none
+  | some name => (PathName.removeTxtpp name).map (fun n => src.dropLast ++ [n])
+
 /-- `preprocess(shell, input_file, mode, is_first_pass, trailing_newline)` on the model FS -/
 def runPass (cfg : Cfg) (fs : FS) (src : Path) (first : Bool) : Outcome × FS :=
-  match fs.file? src with
-  | none => (.err, fs)
-  | some content =>
-    let bytes := content.toList
-    let le := sniffLE bytes
-    let wd := src.dropLast
-    match src.getLast? with
-    | none => (.err, fs)
-    | some name =>
-    match PathName.removeTxtpp name with
-    | none => (.err, fs)
-    | some outName =>
-      let o := wd ++ [outName]
-      -- CtxOut::new
-      let start : Option FS :=
-        match cfg.mode with
-        | .build => if fs.isDir o then none else some (fs.write o ByteArray.empty)
-        | .inMemory => some fs
-        | .clean => if fs.isFile o then some (fs.remove o) else if fs.isDir o then none else some fs
-        | .verify => if fs.pathExists o then some fs else none
-      match start with
-      | none => (.err, fs)
-      | some fs1 =>
-        let (lines, readOk) := decodeLines (byteLines bytes)
-        match ppPass (fileWorld cfg wd (joinPath src)) cfg.mode le first cfg.trailing fs1 lines readOk with
-        | .err => (.err, fs1)
-        | .hasDeps deps fs2 => (.hasDeps deps, fs2)
-        | .ok out fs2 =>
-          let new := encodeUtf8 out
-          match cfg.mode with
-          | .build => (.ok, fs2.write o new)
-          | .inMemory =>
-            if fs2.isDir o then (.err, fs2)
-            else if fs2.file? o == some new then (.ok, fs2) else (.ok, fs2.write o new)
-          | .clean => (.ok, fs2)
-          | .verify => if fs2.file? o == some new then (.ok, fs2) else (.err, fs2)
+  match fs.file? src, outputPath src with
+  | some content, some o => runPassAt cfg fs src first content o
+  | _, _ => (.err, fs)
 
 end Txt
